@@ -264,7 +264,7 @@ Section Receive.
     let '(e', _, d) := process_received app e r maxszx isb1 in
     rx_ok (receiving e') /\ forall x, In x d -> delivered_ok isb1 r x.
   Proof.
-    intros Hmax Hgd Hrx [Htag Hcoh]. unfold process_received. fold (blockopt isb1 r). rewrite Hgd.
+    intros Hmax Hgd Hrx [Htag Hcoh]. unfold process_received, process_received_s. fold (blockopt isb1 r). rewrite Hgd.
     destruct (blockopt isb1 r) as [b|] eqn:Hb.
     2: { destruct (isb1 && match mb2 r with Some b2 => negb (bnum b2 =? 0) | None => false end);
          (split; [exact Hrx|]); [intros x []|intros x [<-|[]]; left; auto]. }
@@ -294,6 +294,8 @@ Section Receive.
          else
            let szx := Z.min szx0 maxszx in
            let psize := blen (mbody cm') in
+           if refuse_restart isb1 (psize / size szx) (get_sent_request e (mtok r))
+           then (with_receiving e2 (tdel (receiving e2) key), Fail, []) else
            let sm :=
              if isb1 then
                {| mcode := Continue; mtok := key; mb1 := Some {| bszx := szx; bnum := bnum b; bmore := bmore b |};
@@ -320,8 +322,11 @@ Section Receive.
         + intros x [<-|[]]. right.
           destruct (set_block_fields isb1 cm') as [-> [-> _]].
           apply Hfull; [exact Ha|]. rewrite <- Het. rewrite Het. apply Hfin. exact Hm.
-      - split; [|intros x []]. cbn [receiving with_receiving].
-        apply rx_ok_tput; try assumption. rewrite Htrip; exact Hrx. }
+      - cbv zeta. match goal with |- context [refuse_restart ?a ?n ?q] => destruct (refuse_restart a n q) end.
+        + split; [|intros x []]. cbn [receiving with_receiving].
+          apply rx_ok_tdel. apply rx_ok_tput; try assumption. rewrite Htrip; exact Hrx.
+        + split; [|intros x []]. cbn [receiving with_receiving].
+          apply rx_ok_tput; try assumption. rewrite Htrip; exact Hrx. }
     destruct (tget (receiving e0) key) as [c|] eqn:Hc.
     - rewrite Htrip in Hc. destruct (Hrx _ _ Hc) as [Hct Hcp].
       destruct (bmore b); apply (Hgen c (bszx b) Hct Hcp); left; reflexivity.
@@ -382,7 +387,7 @@ Proof. unfold observe_key. crush_match; repeat split. Qed.
 Lemma process_received_cfg app e r mx isb1 :
   let e' := fst (fst (process_received app e r mx isb1)) in eszx e' = eszx e /\ emax e' = emax e.
 Proof.
-  unfold process_received.
+  unfold process_received, process_received_s.
   destruct ((mcode r =? GET) || (mcode r =? DELETE)); [repeat split|].
   destruct (if isb1 then mb1 r else mb2 r) as [b|]; [|crush_match; repeat split].
   destruct (if isb1 then false else match get_sent_request e (mtok r) with None => true | Some _ => false end); [repeat split|].
@@ -395,7 +400,7 @@ Qed.
 Lemma handle_received_cfg app e r :
   let e' := fst (fst (handle_received app e r)) in eszx e' = eszx e /\ emax e' = emax e.
 Proof.
-  unfold handle_received.
+  unfold handle_received, handle_received_s; fold_pr.
   destruct ((mcode r =? 0) || ((225 <=? mcode r) && (mcode r <=? 229))); [repeat split|].
   destruct ((mcode r =? GET) || (mcode r =? DELETE)).
   - match goal with |- context [start_sending ?a ?b ?c ?d ?f] =>
@@ -436,7 +441,7 @@ Section HandleInv.
     let '(e', _, d) := handle_received app e r in
     rx_ok bodyf noetag (receiving e') /\ (forall x, In x d -> handed_ok r x).
   Proof.
-    intros Hsz Hrx Hcoh. unfold handle_received.
+    intros Hsz Hrx Hcoh. unfold handle_received, handle_received_s; fold_pr.
     destruct ((mcode r =? 0) || ((225 <=? mcode r) && (mcode r <=? 229))) eqn:Hsig.
     { split; [exact Hrx|]. intros x [<-|[]]. left. split; [reflexivity|right].
       unfold is_plain_code. rewrite <- orb_assoc, Hsig. reflexivity. }
@@ -534,7 +539,7 @@ Section Once.
     (d <> [] -> tget (receiving e') (mtok r) = None) /\
     (tget (receiving e) (mtok r) = None -> bnum b <> 0 -> d = []).
   Proof.
-    intros Hb Hobs Hgd. unfold process_received. rewrite Hgd, Hb. unfold observe_key. rewrite Hobs.
+    intros Hb Hobs Hgd. unfold process_received, process_received_s. rewrite Hgd, Hb. unfold observe_key. rewrite Hobs.
     destruct (if isb1 then false else match get_sent_request e (mtok r) with None => true | Some _ => false end).
     { split; [intros H; contradiction H; reflexivity|reflexivity]. }
     cbn [negb].
@@ -543,11 +548,14 @@ Section Once.
         (destruct (reasm c r (bnum b * size (bszx b))) as [cm' appended];
          match goal with |- context [if ?c then _ else _] => destruct c end;
          try destruct (mtok cm' =? mtok r);
+         cbv zeta; try match goal with |- context [refuse_restart ?a ?n ?q] => destruct (refuse_restart a n q) end;
          (split; [intros Hd; try (contradiction Hd; reflexivity); cbn [receiving with_receiving with_sending]; apply tget_tdel_same
                  |intros Hn; discriminate Hn])).
     - destruct (bmore b) eqn:Hm.
       + destruct (reasm (set_body r []) r (bnum b * size (Z.min (bszx b) mx))) as [cm' appended].
-        rewrite andb_false_r. split; [intros Hd; contradiction Hd; reflexivity|reflexivity].
+        rewrite andb_false_r. cbv zeta.
+        match goal with |- context [refuse_restart ?a ?n ?q] => destruct (refuse_restart a n q) end;
+          (split; [intros Hd; contradiction Hd; reflexivity|reflexivity]).
       + destruct (bnum b =? 0) eqn:Hz; cbn [negb].
         * split; [intros _; exact Hc|]. intros _ Hne. apply Z.eqb_eq in Hz. contradiction.
         * split; [intros Hd; contradiction Hd; reflexivity|reflexivity].
@@ -565,7 +573,7 @@ Section Once.
                match o with Out w => (e', w, d, 0) | Fail => (e', Some (entity_incomplete (mtok r)), d, 1) end) in
               (d <> [] -> tget (receiving e') (mtok r) = None) /\
               (tget (receiving e) (mtok r) = None -> bnum b <> 0 -> d = [])).
-    { unfold handle_received. unfold is_plain_code in Hplain.
+    { unfold handle_received, handle_received_s; fold_pr. unfold is_plain_code in Hplain.
       apply orb_false_iff in Hplain. destruct Hplain as [Hplain Hd]. apply orb_false_iff in Hplain. destruct Hplain as [Hplain Hg].
       rewrite Hplain. rewrite Hg, Hd. cbn [orb].
       unfold blockopt in Hb.
@@ -617,7 +625,7 @@ Section Frame.
     let '(e', o, _) := process_received app e r mx isb1 in
     same_at e e' t /\ (forall wm, o = Out (Some wm) -> mbody wm = [] \/ mtok wm = mtok r).
   Proof.
-    intros Hf Hh Hne Hrange. unfold process_received, same_at.
+    intros Hf Hh Hne Hrange. unfold process_received, process_received_s, same_at.
     destruct ((mcode r =? GET) || (mcode r =? DELETE)).
     { split; [split; reflexivity|]. intros wm H. injection H as H. right. exact (Happ _ _ _ H). }
     destruct (if isb1 then mb1 r else mb2 r) as [b|].
@@ -647,9 +655,10 @@ Section Frame.
     all: match goal with |- context [reasm ?a ?b ?c] => destruct (reasm a b c) as [cm' appended] end.
     all: match goal with |- context [if ?c then _ else _] => destruct c end.
     all: try (destruct (mtok cm' =? key)).
+    all: cbv zeta; try match goal with |- context [refuse_restart ?a ?n ?q] => destruct (refuse_restart a n q) end.
     all: cbn [sending receiving with_sending with_receiving].
     all: split; [split; first [exact Hs0|exact Hsdel|apply Hput|apply Hdel]|].
-    all: intros wm H; injection H as H.
+    all: intros wm H; try discriminate H; injection H as H.
     all: try (right; exact (Happ _ _ _ H)).
     all: left; subst wm; destruct isb1; try reflexivity; destruct (get_sent_request e (mtok r)); reflexivity.
   Qed.
@@ -675,7 +684,7 @@ Section Isolated.
                match o with Out w => (e', w, d, 0) | Fail => (e', Some (entity_incomplete (mtok r)), d, 1) end) in
               same_at e e' t).
     { assert (Hhr : same_at e (fst (fst (handle_received app e r))) t).
-      { unfold handle_received.
+      { unfold handle_received, handle_received_s; fold_pr.
         destruct ((mcode r =? 0) || ((225 <=? mcode r) && (mcode r <=? 229))); [split; reflexivity|].
         destruct ((mcode r =? GET) || (mcode r =? DELETE)).
         - assert (Hfit : 0 <= fit (mb2 r) (eszx e) <= 7) by (apply fit_range; [exact Hsz|intros b H; apply Hb; right; exact H]).
